@@ -60,4 +60,9 @@ def handle (args : Toks) : String :=
             ["||", "frame=ok", "cells=ok"])
   | _ => "bad-op"
 
+/-- family CABI: the library runs inside a C caller; a Go panic there kills the caller: `panic crash` whatever the class -/
+def handleCabi (args : Toks) : String :=
+  let r := handle args
+  if r.startsWith "panic" then "panic crash" else r
+
 end OW.Driver.Wrapper
